@@ -142,7 +142,10 @@ def parse_date(date):
         return epoch + datetime.timedelta(seconds=(epoch_seconds(date_1900) + (date - 2) * 86400))
     if isinstance(date, string_types):
         try:
-            return to_date(date)
+            # fields the text leaves out come from the first day of the 1900 system, not from
+            # today (dateutil's default): "March 2020" is 1 March 2020 on every day of the month,
+            # and a bare time of day is that time on day 0
+            return to_date(date, default=date_1900)
         except ValueError:
             pass
     return error.VALUE
